@@ -333,7 +333,7 @@ class Pervaporation:
             self.mixture.second_component.get_vaporisation_heat(
                 conditions.initial_feed_temperature
             )
-            / self.mixture.first_component.molecular_weight
+            / self.mixture.second_component.molecular_weight
             * 1000
         )
         if conditions.permeate_temperature is None:
@@ -351,10 +351,10 @@ class Pervaporation:
                 * 1000
             )
             condensation_heat_2 = (
-                self.mixture.first_component.get_vaporisation_heat(
+                self.mixture.second_component.get_vaporisation_heat(
                     conditions.permeate_temperature
                 )
-                / self.mixture.first_component.molecular_weight
+                / self.mixture.second_component.molecular_weight
                 * 1000
             )
             cooling_heat_1 = self.mixture.first_component.get_cooling_heat(
@@ -1042,7 +1042,7 @@ class Pervaporation:
             self.mixture.second_component.get_vaporisation_heat(
                 conditions.initial_feed_temperature
             )
-            / self.mixture.first_component.molecular_weight
+            / self.mixture.second_component.molecular_weight
             * 1000
         )
         if conditions.permeate_temperature is None:
@@ -1060,10 +1060,10 @@ class Pervaporation:
                 * 1000
             )
             condensation_heat_2 = (
-                self.mixture.first_component.get_vaporisation_heat(
+                self.mixture.second_component.get_vaporisation_heat(
                     conditions.permeate_temperature
                 )
-                / self.mixture.first_component.molecular_weight
+                / self.mixture.second_component.molecular_weight
                 * 1000
             )
             cooling_heat_1 = self.mixture.first_component.get_cooling_heat(
